@@ -1,6 +1,7 @@
 package world
 
 import (
+	"runtime"
 	"context"
 	"encoding/binary"
 	"strconv"
@@ -32,6 +33,10 @@ type CrashKV struct {
 	fuse   int // -1 = disarmed; otherwise number of writes still allowed
 	blown  bool
 	Quiet  bool // do not log KV events
+	// Yield, when > 0, makes every write yield the processor that many times before it lands (a datastore whose
+	// writes go to disk lets other goroutines run in between): the loops that were just signalled get to run
+	// between any two durable writes. No virtual time passes, so quiescence points are unaffected.
+	Yield int
 	// pause: after pauseIn more writes have been applied, the writer blocks until Release
 	pauseIn int
 	pauseCh chan struct{}
@@ -124,6 +129,9 @@ func (c *CrashKV) gate() {
 }
 
 func (c *CrashKV) apply(ops []kvop, batch bool) {
+	for i := 0; i < c.Yield; i++ {
+		runtime.Gosched()
+	}
 	c.mu.Lock()
 	func() {
 		defer func() {
